@@ -18,13 +18,13 @@ TECHNIQUE = ('runtime post-condition monitors with scalar reference oracles (cla
              'node <= query, clamped-index window means, per-split deviation sums, side means) + cross-function '
              'identity / one-sided-limit / bisection-scan relations for the NZS 1170.5 functions')
 RULE = ('cases = calls of the real functions through the public names. Interpolation: strictly increasing node sets '
-        '(sorted random, integer grids, log-spaced, very uneven, 1..8 nodes, 1..4 columns, overall scale 10^U(-12,6), '
+        '(sorted random, integer grids, log-spaced, very uneven, offset with spacing << magnitude, 1..8 nodes, 1..4 columns, overall scale 10^U(-12,6), '
         'float and int dtype) with queries inside / on nodes / next to nodes / below / above; distinct = digest(queries, '
         'nodes, table), non-trivial = some query strictly inside a non-constant table. Rolling average: record classes '
         'of gen.record, 1..40 (some up to 400) samples in five containers, every window 1..len drawn at random, the four '
         'mode strings; non-trivial = non-constant series and window > 1. Step fit: 2..30 (some up to 120) samples, '
         'positive / negative / mixed-sign / step-like data, float64 and integer dtype, lists, p in {1,2}, dir=None; '
-        'non-trivial = non-constant series. Design spectra: T in {0, every boundary*(1 -+ 1e-12), U(0,6), 10^U(-6,1)} as '
+        'non-trivial = non-constant series. Design spectra: T in {0, every boundary*(1 -+ 1e-12), U(0,6), 10^U(-6,3)} as '
         'float / np.float64 / array / list, classes C D E, Z R N uniform in their code ranges; a fixed grid of [0, 6.5] '
         '(distinct by construction) is scanned for jumps with bisection down to 1e-12.')
 ASSUMPTIONS = ['node sets strictly increasing and finite (duplicates / unsorted nodes are counted, not judged)',
@@ -163,8 +163,8 @@ def check_interp_left(ctx, x0, x, y, result):
     else:
         clause = 'interp_left==value-at-greatest-node<=q'
     if any(j is None for j in idx):
-        ctx.violation(clause, wit(), 'interp_left accepted a query below the first node: %s vs first node %r'
-                      % (qs[:8], nodes[0]))
+        # no node <= query: the statement defines no value there (eqsig rejects such calls today)
+        ctx.observe('interp_left: query below the first node accepted (outside the domain, not judged)')
         return
     ylist = None if y is None else np.array(y).ravel().tolist()
     exp = O.left_values(qs, nodes, ylist)
@@ -576,11 +576,15 @@ def rel_continuity(ctx, eqsig, which, sc, a, b, clause):
     """One evaluation of the continuity clause on [a, b] for c_h_factor ('c_h') or sd_nzs with unit factors ('sd')."""
     f = _spec_fn(eqsig, which, sc)
     wit = {'fn': 'continuity', 'which': which, 'site_class': sc, 'a': a, 'b': b, 'clause': clause}
+    budget = [4000]
     try:
         fa, fb = f(a), f(b)
-        j = find_jump(f, a, b, fa, fb, [4000])
+        j = find_jump(f, a, b, fa, fb, budget)
     except Exception as e:
         ctx.exception(clause, wit, e)
+        return
+    if j is None and budget[0] <= 0:
+        ctx.observe('continuity: bisection budget exhausted, interval not decided')
         return
     if j is not None:
         wit = dict(wit, jump_at=j[0], jump_to=j[1], f_left=j[2], f_right=j[3])
@@ -644,7 +648,14 @@ def gen_nodes(rng):
     """Strictly increasing node set (float64 or int64) and the name of its class."""
     for _ in range(20):
         m = int(rng.choice([1, 2, 3, 4, 5, 6, 7, 8], p=[.03, .17, .15, .15, .15, .15, .1, .1]))
-        k = int(rng.integers(0, 5))
+        k = int(rng.integers(0, 6))
+        if k == 5:
+            # spacing far below the magnitude of the nodes (but >= 1e3 ulp, so the nodes stay distinct)
+            off = float(rng.choice([-1.0, 1.0])) * 10.0 ** rng.uniform(-2, 3)
+            nodes = off + np.cumsum(rng.uniform(0.5, 2.0, size=m)) * abs(off) * 10.0 ** rng.uniform(-12, -4)
+            if np.all(np.isfinite(nodes)) and (m == 1 or np.all(np.diff(nodes) > 0)):
+                return nodes, 'offset-fine-spacing'
+            continue
         if k == 0:
             base = np.sort(rng.uniform(-5, 5, size=m))
             name = 'sorted-random'
@@ -876,7 +887,7 @@ def gen_period(rng, sc):
     if r < 0.80:
         return float(rng.uniform(0, 6))
     if r < 0.95:
-        return float(10.0 ** rng.uniform(-6, 1))
+        return float(10.0 ** rng.uniform(-6, 3))
     return float(rng.choice([0.05, 0.2, 0.5, 0.75, 1.0, 2.0, 3.0, 4.0, 10.0]))
 
 
